@@ -25,7 +25,7 @@ RS = RuleSet(
 )
 
 CS = 'yash_semantics::expansion::initial::command_subst::'
-CLOSE = ['yash_env::system::Close::close']
+CLOSE = ['*::Close::close']
 
 
 def _report_undominated(cx, body, first, then, key, msg):
@@ -74,7 +74,7 @@ def r1b(cx):
     du = Q.DefUse(body)
     close_r = Q.calls_with_arg_named(body, CLOSE, 'reader', du)
     close_w = Q.calls_with_arg_named(body, CLOSE, 'writer', du)
-    dup2 = Q.calls_with_arg_named(body, ['yash_env::system::Dup::dup2'], 'writer', du)
+    dup2 = Q.calls_with_arg_named(body, ['*::Dup::dup2'], 'writer', du)
     run = Q.find_calls(body, ['*::read_eval_loop'])
     cx.require(run, 'read_eval_loop not called in subshell_body')
     cx.require(close_r and close_w and dup2, 'pipe arrangement calls not found in subshell_body')
@@ -111,7 +111,7 @@ def r2(cx):
     cx.fn(body.fn)
     du = Q.DefUse(body)
     closes = Q.find_calls(body, CLOSE)
-    dup2s = Q.find_calls(body, ['yash_env::system::Dup::dup2'])
+    dup2s = Q.find_calls(body, ['*::Dup::dup2'])
     cx.floor(len(closes), 3, 'close calls in move_to_stdin_stdout')
     cx.floor(len(dup2s), 2, 'dup2 calls in move_to_stdin_stdout')
     for b, t in closes + dup2s:
@@ -138,7 +138,7 @@ def r3(cx):
     body = F.bodies[wa[0]]
     cx.fn(body.fn)
     du = Q.DefUse(body)
-    oks = Q.find_aggregates(body, 'std::result::Result', 'Ok')
+    oks = Q.find_aggregates(body, 'core::result::Result', 'Ok')
     oks = [(b, j, s) for b, j, s in oks if s['lhs']['l'] == 0]
     cx.floor(len(oks), 2, 'Ok(()) returns in write_all')
     for b, j, s in oks:
@@ -175,7 +175,7 @@ def r3(cx):
     rb = F.bodies[ra[0]]
     cx.fn(rb.fn)
     du2 = Q.DefUse(rb)
-    oks = [(b, j, s) for b, j, s in Q.find_aggregates(rb, 'std::result::Result', 'Ok') if s['lhs']['l'] == 0]
+    oks = [(b, j, s) for b, j, s in Q.find_aggregates(rb, 'core::result::Result', 'Ok') if s['lhs']['l'] == 0]
     cx.floor(len(oks), 1, 'Ok(()) returns in read_all_to')
     for b, j, s in oks:
         cx.site('%s: return Ok(()) at %s' % (rb.fn, rb.loc(s)))
@@ -218,7 +218,7 @@ def r4(cx):
             cx.violation(body.root, 'trim:%s' % pp.callee(t).split('::')[-1],
                          "command substitution must remove trailing newline characters only (trim_end_matches('\\n')), "
                          'found %s(%s)' % (pp.callee(t), names[1:]), loc=body.loc(t))
-    trunc = Q.find_calls(body, ['std::string::String::truncate'])
+    trunc = Q.find_calls(body, ['alloc::string::String::truncate'])
     cx.require(len(trunc) == 1, 'expected exactly one truncate of the output')
     # truncate length derives from the trimmed slice's len
     lorg = du.origin(trunc[0][1]['a'][1])
@@ -231,7 +231,7 @@ def r4(cx):
         cx.violation(body.root, 'truncate-length', 'the output is truncated to a length that is not the trimmed length',
                      loc=body.loc(trunc[0][1]))
     # no other String mutation of the output
-    muts = Q.find_calls(body, [Q.re.compile(r'^std::string::String::(pop|remove|retain|replace_range|clear|drain|insert|insert_str|push|push_str)$')])
+    muts = Q.find_calls(body, [Q.re.compile(r'^alloc::string::String::(pop|remove|retain|replace_range|clear|drain|insert|insert_str|push|push_str)$')])
     for b, t in muts:
         cx.violation(body.root, 'mutates-output:%s' % pp.callee(t).split('::')[-1], 'the substitution output is edited by %s'
                      % pp.callee(t), loc=body.loc(t))
@@ -255,7 +255,7 @@ def r5(cx):
         cx.violation(body.root, 'seek-target', 'the here-document descriptor is not rewound to SeekFrom::Start(0)',
                      loc=body.loc(sk[0][1]))
     # write error is propagated (the `?` after write_all): Ok(()) only after both succeed
-    oks = [(b, j, s) for b, j, s in Q.find_aggregates(body, 'std::result::Result', 'Ok') if s['lhs']['l'] == 0]
+    oks = [(b, j, s) for b, j, s in Q.find_aggregates(body, 'core::result::Result', 'Ok') if s['lhs']['l'] == 0]
     for b, j, s in oks:
         cx.site('%s: Ok(()) at %s' % (body.fn, body.loc(s)))
         if not body.dominates(sk[0][0], b):
